@@ -651,3 +651,15 @@ def _kida_templates(zeta):
 
 BENIGN.append({"name": "kida-laws-as-class-templates", "edits": _kida_templates("zeta")})
 MUTANTS.append({"name": "kida-class-template-wrong-symbol", "edits": _kida_templates("zeta * Av"), "rules": ["R3"]})
+
+
+def _kida_module_function(expo):
+    """the modified-Arrhenius product built by a module-level helper function"""
+    return [{"file": K, "old": '            rate = " * ".join(\n                s\n                for s in [\n                    f"{a}",\n                    f"pow(Tgas/300.0, {b})" if b else "",\n'
+             '                    f"exp(-{c}/Tgas)" if c else "",\n                ]\n                if s\n            )\n        elif formula == 4:', "new": '            rate = _arrhenius(a, b, c)\n        elif formula == 4:'},
+            {"file": K, "old": "class KIDAReaction(Reaction):\n", "new": 'def _arrhenius(a, b, c):\n    factors = [f"{a}", f"pow(Tgas/300.0, {b})" if b else "", f"exp(' + expo + '{c}/Tgas)" if c else ""]\n'
+             '    return " * ".join(s for s in factors if s)\n\n\nclass KIDAReaction(Reaction):\n'}]
+
+
+BENIGN.append({"name": "kida-arrhenius-by-module-function", "edits": _kida_module_function("-")})
+MUTANTS.append({"name": "kida-module-function-sign", "edits": _kida_module_function(""), "rules": ["R3"]})
